@@ -45,16 +45,22 @@ PAGE = 4096
 # ------------------------------------------------------------------------------------------------
 
 class Prog:
-    def __init__(self, plan, heap, workers, tag, events=False):
+    def __init__(self, plan, heap, workers, tag, events=False, dyn_min=None):
         self.plan, self.heap, self.workers, self.tag = plan, heap, workers, tag
         self.lines = [f"cfg plan {plan}", f"cfg heap {heap}", f"cfg workers {workers}", "cfg watchdog 20",
                       "init", "bind 0"]
+        if dyn_min:
+            # growable heap (DynamicHeapSize:min,max with max = `heap`): "larger than the maximum heap" still refers to
+            # `heap`; a request between the current limit and the maximum must go through a GC, not fail at once
+            # (added after seeded change C10b: will_oom_on_alloc compared with the CURRENT heap size).
+            # Inserted before `cfg watchdog` so that the line indices of the tail (init at -2) stay as they were.
+            self.lines[3:3] = [f"cfg opt gc_trigger DynamicHeapSize:{dyn_min},{heap}"]
         # events=True: the hook event log is on and every request is followed by `events`; the number of
         # PrGetNewPagesFail events (src/policy/space.rs, get_new_pages_and_initialize: the page resource itself
         # failed) is part of the observation (`prfail`)
         self.events = events
         if events:
-            self.lines[4:4] = ["cfg events 1"]
+            i = self.lines.index("init"); self.lines[i:i] = ["cfg events 1"]
             self.lines.append("kinds")
         self.meta = {}          # line index -> dict(opts, cls, size, obvious, phase)
         self.next_id = 1
@@ -107,10 +113,10 @@ def size_of(rng, cls, heap):
     raise ValueError(cls)
 
 
-def gen_program(rng, plan, heap, workers, tag):
+def gen_program(rng, plan, heap, workers, tag, dyn_min=None):
     """Random stream: every option combination in every phase (the F5/F6 combinations were excluded
     until the two `fix:` commits)."""
-    p = Prog(plan, heap, workers, tag)
+    p = Prog(plan, heap, workers, tag, dyn_min=dyn_min)
     # a Default object that survives every GC (MarkCompact needs a survivor), slot 0
     p.add(f"alloc 0 {p.next_id} 0 64 8 0 Default 0"); p.next_id += 1
     combos = COMBOS[:]
@@ -118,6 +124,8 @@ def gen_program(rng, plan, heap, workers, tag):
     # phase A: heap (almost) empty: everything fits, all eight combinations
     for opts in combos:
         cls = rng.choice(["small", "small", "medium"]) if plan != "NoGC" else "small"
+        if dyn_min and rng.random() < 0.6:
+            cls = "big"        # growable heap: above the CURRENT limit (min = heap/8), far below the maximum
         pay, sem = size_of(rng, cls, heap)
         p.alloco(pay, sem, 60 + rng.randrange(4), opts, cls, "A")
     # obviously too large requests (no GC involved): every combination
@@ -227,7 +235,7 @@ def gen_exhaust_sem(rng, plan, heap, workers, tag, sem, objbytes, extent_pages):
 
 def corpus_f6():
     p = Prog("SemiSpace", 8388608, 1, "corpus:F6")
-    p.lines[3] = "cfg watchdog 8"
+    p.lines[p.lines.index("cfg watchdog 20")] = "cfg watchdog 8"
     p.alloco(20000000, "Los", 8, (0, 1, 0), "over", "known")
     return p
 
@@ -450,7 +458,9 @@ def build_programs(tier, seed):
         if plan == "NoGC":
             heap = max(heap, 8 << 20)
         workers = 1 + (k // (len(PLANS) * len(HEAPS_MB))) % 3
-        progs.append(gen_program(random.Random(rng.randrange(1 << 60)), plan, heap, workers, f"rnd{k}:{plan}:{heap >> 20}M:w{workers}"))
+        dyn = (heap >> 3) if (k % 3 == 2 and plan != "NoGC") else None       # every third program: growable heap
+        progs.append(gen_program(random.Random(rng.randrange(1 << 60)), plan, heap, workers,
+                                 f"rnd{k}:{plan}:{heap >> 20}M:w{workers}" + (":dyn" if dyn else ""), dyn))
     # space-exhaustion stream (drawn after the classic stream: the classic programs of a seed are unchanged)
     ne = 14 if tier == "quick" else 56
     for k in range(ne):
@@ -594,7 +604,7 @@ def main(argv=None):
         "mutation_selftest": st_report,
         "crashed_programs": crashed,
         "distribution": dict(sorted(dist.items())),
-        "rule": "per program: plan x heap(2..16 MB) x workers; phase A (empty heap): 8 option combinations x {small,medium} + obviously-too-large {2.5x heap, ~4 GB}; phase B: 16+ live chunks of heap/12 with default options until the heap runs out; phase C (full heap): option combinations x {small, medium, heap/3, >heap, ~4GB}; phase D: half of the chunks dropped, GC frees memory. Observation per alloc_with_options: result, out_of_memory calls, block_for_gc calls, pauses. distinct = distinct (options, obvious, result, oom, blocked) tuples other than plain success. Corpus (runs first): the programs of the three repaired defects (F6 obviously-too-large with safepoint=1,oomcall=0; F5 unsatisfiable with overcommit=0,safepoint=1,oomcall=0; overcommit beyond the address range of the large-object space). Sizes < 4 GiB (harness object header). Space-exhaustion stream (7 plans x heaps 2..16 MB, event log on, `prfail` = PrGetNewPagesFail events during the request): phase E keeps g-page large objects live with allow_overcommit=1 (at_safepoint / allow_oom_call random, at_safepoint=0 twice as likely) until the large-object space has no address range left, then every overcommit combination once more; phase F drops 3 of every 4, collects, and issues 4g-page requests with all 8 combinations (heap 3/4 empty, no 4g-page run free: the poll passes, the page resource fails) plus requests that fit a hole; the same phase E in the Immortal space (MonotonePageResource) and the MarkSweep default space (BlockPageResource). A null result of an allow_overcommit request is tolerated only where prfail > 0 (or in the corpus program that says so). Corpus: + the page resource failing for each of the four at_safepoint=0 combinations.",
+        "rule": "per program: plan x heap(2..16 MB; every third program DynamicHeapSize:heap/8,heap) x workers; phase A (empty heap): 8 option combinations x {small,medium} + obviously-too-large {2.5x heap, ~4 GB}; phase B: 16+ live chunks of heap/12 with default options until the heap runs out; phase C (full heap): option combinations x {small, medium, heap/3, >heap, ~4GB}; phase D: half of the chunks dropped, GC frees memory. Observation per alloc_with_options: result, out_of_memory calls, block_for_gc calls, pauses. distinct = distinct (options, obvious, result, oom, blocked) tuples other than plain success. Corpus (runs first): the programs of the three repaired defects (F6 obviously-too-large with safepoint=1,oomcall=0; F5 unsatisfiable with overcommit=0,safepoint=1,oomcall=0; overcommit beyond the address range of the large-object space). Sizes < 4 GiB (harness object header). Space-exhaustion stream (7 plans x heaps 2..16 MB, event log on, `prfail` = PrGetNewPagesFail events during the request): phase E keeps g-page large objects live with allow_overcommit=1 (at_safepoint / allow_oom_call random, at_safepoint=0 twice as likely) until the large-object space has no address range left, then every overcommit combination once more; phase F drops 3 of every 4, collects, and issues 4g-page requests with all 8 combinations (heap 3/4 empty, no 4g-page run free: the poll passes, the page resource fails) plus requests that fit a hole; the same phase E in the Immortal space (MonotonePageResource) and the MarkSweep default space (BlockPageResource). A null result of an allow_overcommit request is tolerated only where prfail > 0 (or in the corpus program that says so). Corpus: + the page resource failing for each of the four at_safepoint=0 combinations.",
         "hx_gc_build_s": build_s, "lean_s": lean.get("lean_s"),
     }
     return E.finish(PID, a.tier, a.seed, t0, lean, corr, violations,
